@@ -577,7 +577,7 @@ func c24Child(rec *kit.Rec) {
 		rec.Seen("status_codes", code.String())
 		nontrivial := q.Base != "valid-query+opts-subset" && !strings.HasPrefix(q.Base, "valid-query+opts-repos")
 		rec.Case(q.Method+"|"+q.Class+"|"+string(wire), nontrivial, func() any {
-			return map[string]any{"method": q.Method, "class": q.Class, "request": json.RawMessage(clip(string(js), 500)), "answer": code.String(), "message": clip(msg, 200), "messages": n}
+			return map[string]any{"method": q.Method, "class": q.Class, "request": clip(string(js), 500), "answer": code.String(), "message": clip(msg, 200), "messages": n}
 		})
 		if code == codes.DeadlineExceeded {
 			rec.Count("requests_deadline_exceeded_inconclusive", 1)
@@ -596,15 +596,16 @@ func c24Child(rec *kit.Rec) {
 	}
 }
 
-// c24OptsUnset: a request that has a query but no options message.
+// c24OptsUnset: a request that has a query but no options message (a request without
+// a query never gets as far as its options).
 func c24OptsUnset(m proto.Message) bool {
 	switch v := m.(type) {
 	case *v1.SearchRequest:
-		return v.GetOpts() == nil
+		return v.GetQuery() != nil && v.GetOpts() == nil
 	case *v1.StreamSearchRequest:
-		return v.GetRequest().GetOpts() == nil
+		return v.GetRequest().GetQuery() != nil && v.GetRequest().GetOpts() == nil
 	case *v1.ListRequest:
-		return v.GetOpts() == nil
+		return v.GetQuery() != nil && v.GetOpts() == nil
 	}
 	return false
 }
@@ -669,6 +670,12 @@ func c24Totality(rec *kit.Rec) {
 				break
 			}
 			if !res.Crashed() {
+				break
+			}
+			if res.Exit == 0 && res.Signal == "" {
+				// the child ran to its end but its record stream has no final record: a
+				// harness fault, never a server death
+				rec.Violation("harness/child-record-lost", "child exited 0 without a childdone record", map[string]any{"tail": clip(res.Tail, 2000), "last": res.LastCase})
 				break
 			}
 			var lc c24Logged
